@@ -467,8 +467,7 @@ func (r *Runtime) stringproto_normalize(call FunctionCall) Value {
 	case asciiString:
 		return s
 	case unicodeString:
-		ss := s.String()
-		return newStringValue(f.String(ss))
+		return s.mapWellFormed(f.String)
 	case *importedString:
 		if s.scanned.Load() && s.u == nil {
 			return asciiString(s.s)
@@ -999,28 +998,44 @@ func (r *Runtime) stringproto_toUpperCase(call FunctionCall) Value {
 	return s.toUpper()
 }
 
+// trimString works on the code units, so that lone surrogates (which a Go string cannot hold) survive
+func trimString(s String, left, right bool) String {
+	isSpace := func(c uint16) bool {
+		return strings.ContainsRune(parser.WhitespaceChars, rune(c))
+	}
+	start, end := 0, s.Length()
+	if left {
+		for start < end && isSpace(s.CharAt(start)) {
+			start++
+		}
+	}
+	if right {
+		for end > start && isSpace(s.CharAt(end-1)) {
+			end--
+		}
+	}
+	return s.Substring(start, end)
+}
+
 func (r *Runtime) stringproto_trim(call FunctionCall) Value {
 	r.checkObjectCoercible(call.This)
 	s := call.This.toString()
 
-	// TODO handle invalid UTF-16
-	return newStringValue(strings.Trim(s.String(), parser.WhitespaceChars))
+	return trimString(s, true, true)
 }
 
 func (r *Runtime) stringproto_trimEnd(call FunctionCall) Value {
 	r.checkObjectCoercible(call.This)
 	s := call.This.toString()
 
-	// TODO handle invalid UTF-16
-	return newStringValue(strings.TrimRight(s.String(), parser.WhitespaceChars))
+	return trimString(s, false, true)
 }
 
 func (r *Runtime) stringproto_trimStart(call FunctionCall) Value {
 	r.checkObjectCoercible(call.This)
 	s := call.This.toString()
 
-	// TODO handle invalid UTF-16
-	return newStringValue(strings.TrimLeft(s.String(), parser.WhitespaceChars))
+	return trimString(s, true, false)
 }
 
 func (r *Runtime) stringproto_substr(call FunctionCall) Value {
